@@ -57,6 +57,13 @@ let parse_content (s : string) : (byte list * byte list) list =
                       | [k; v] -> (bytes_of_hex k, bytes_of_hex v)
                       | _ -> failwith "bad content") (String.split_on_char ',' s)
 
+let run_plain (ops : string list) : state =
+  let st = ref init_state in
+  List.iter (fun t -> match parse_op t with
+    | Some o -> let (s', _) = k_step !st o in st := s'
+    | None -> ()) ops;
+  !st
+
 let handle (toks : string list) : string =
   match toks with
   | ["keccak"; h] -> hex_of_bytes (keccak256 (bytes_of_hex h))
@@ -68,6 +75,48 @@ let handle (toks : string list) : string =
       | None -> let tr = (!st).strie in
                 "x:" ^ string_of_int (int_of_n tr.tgen) ^ "/" ^ string_of_int (int_of_n tr.tlimit) ^ "/" ^ render tr.troot) ops in
     String.concat ";" outs
+  | "srun" :: ops ->
+    let st = ref sec_init in
+    let outs = List.map (fun t ->
+      let o = match String.split_on_char ':' t with
+        | ["u"; k; v] -> SUpdate (bytes_of_hex k, bytes_of_hex v)
+        | ["d"; k] -> SDelete (bytes_of_hex k)
+        | ["g"; k] -> SGet (bytes_of_hex k)
+        | ["k"; hk] -> SGetKey (bytes_of_hex hk)
+        | ["h"] -> SHash
+        | ["c"] -> SCommit
+        | ["r"; r; l] -> SReopen (bytes_of_hex r, n_of_string l)
+        | _ -> failwith ("bad sop " ^ t) in
+      let (s', ob) = k_sec_step !st o in st := s'; render_obs ob) ops in
+    String.concat ";" outs
+  | ["dsha"; items] ->
+    let l = if items = "-" then [] else List.map bytes_of_hex (String.split_on_char ',' items) in
+    (match k_derive_sha l with Ok r -> hex_of_bytes r | e -> fail_name e)
+  | "iterfrom" :: start :: ops ->
+    let st = run_plain ops in
+    (match k_iterate_from st.strie st.sdb (bytes_of_hex start) (nat_of_int 4000) with
+     | Ok (l, _) -> "i:" ^ String.concat "," (List.map (fun (k, v) -> hx k ^ "=" ^ hx v) l)
+     | e -> fail_name e)
+  | "niter" :: start :: flags :: ops ->
+    (* NodeIterator protocol: build the trie by ops, t.NodeIterator(start), then Next(descend) per flag *)
+    let st = run_plain ops in
+    (match k_trie_hash st.strie with
+     | Ok (rh, t') ->
+       let fuel = nat_of_int 4000 in
+       let it = ref (k_it_new fuel st.sdb t'.tgen rh t'.troot (bytes_of_hex start)) in
+       let show moved =
+         let i = !it in
+         let leaf = it_leaf i in
+         (if moved then "T" else "F") ^ "," ^ hx i.it_path ^ "," ^ hx (it_hash i) ^ "," ^ hx (it_parent i) ^ ","
+         ^ (if leaf then (match it_leaf_key i, it_leaf_blob i with
+                          | Ok k, Ok v -> "L" ^ hx k ^ "=" ^ hx v | _, _ -> "Lpanic") else "-")
+         ^ "," ^ (match it_error i with ENone -> "ok" | EMissing -> "missing" | EPanic -> "panic" | EFuel -> "fuel" | _ -> "?") in
+       let outs = ref [] in
+       String.iter (fun c ->
+         let (moved, it') = k_it_next fuel st.sdb t'.tgen rh t'.troot !it (c = '1') in
+         it := it'; outs := show moved :: !outs) flags;
+       String.concat ";" (List.rev !outs)
+     | e -> fail_name e)
   | ["mptroot"; c] -> hex_of_bytes (k_mpt_root (parse_content c))
   | ["verify"; root; key; nodes] ->
     let ns = if nodes = "-" then [] else List.map bytes_of_hex (String.split_on_char ',' nodes) in
